@@ -20,6 +20,9 @@ claimed = {
  "C14": dict(text="Lean theorems (PV.Props.C14 on top of C12): the destroy log of every call equals the spec's (old pair on replace, removed pair on remove, everything on clear) and over any history destroyed ++ stored is a permutation of inserted, so with distinct objects nothing is destroyed twice or while stored; for all three variants. Tied by notifier identity logs under ASan (heap-allocated keys/values: double destroy = double free).",
              note=TB + "Behaviour without notifiers (tree never frees/alters user objects) is checked by the harness only (objects verified intact), not a theorem.",
              technique="Lean 4 refinement + multiset (Perm) invariant over histories + differential correspondence under ASan", ref="§3 C14"),
+ "C19": dict(text="Lean theorems (PV.Props.C19): p_uthread_sleep, for every number of handled signals, every remaining-time value and every ambient errno, returns 0 having re-issued the native sleep with exactly the remaining time, the slept intervals add up to the request, genuine errors are reported at once; the interruption test (return value vs errno) is a translator fact. Tied by a scripted clock_nanosleep (exhaustive for k<=6 interruptions) and real SIGALRM storms. The semaphore / shared-memory / socket parts are the *_eintr_transparent theorems and EINTR-injection campaigns of C06, C07 and C09.",
+             note=TB + "POSIX clock_nanosleep contract (error as return value, errno untouched, remaining time written). Real-signal runs check only a lower bound on elapsed time. Until C06/C07/C09 are registered this check decides the sleep part only.",
+             technique="Lean 4 proof over scripted syscall results (induction on the interruption script) + translator + scripted/real-signal differential", ref="§3 C19"),
 }
 checks = []
 for pid, c in sorted(claimed.items()):
